@@ -204,32 +204,64 @@ func c24Emitted(base int64, writes []c24Write, batches []c24Batch, groups []int)
 	return strings.Join(parts, "|")
 }
 
-func c24WaitDrained(got *[]c24Batch, mu *sync.Mutex, lastSeq int64, any bool) bool {
-	deadline := time.Now().Add(20 * time.Second)
+// c24WaitDrained waits until the consumer has received as many objects as were written and
+// (when the last write carried no objects) a batch numbered at least lastSeq; it never
+// relies on sequence numbers alone, so a wrong batch number cannot make it spin. After
+// the first time-out in a run later waits are short: the implementation is evidently
+// not draining and the failure has been recorded.
+var c24DrainBroken atomic.Bool
+
+func c24WaitDrained(got *[]c24Batch, mu *sync.Mutex, lastSeq int64, wantObjs int, lastEmpty bool) bool {
+	limit := 20 * time.Second
+	if c24DrainBroken.Load() {
+		limit = 300 * time.Millisecond
+	}
+	deadline := time.Now().Add(limit)
+	var countOK time.Time
 	for time.Now().Before(deadline) {
 		mu.Lock()
-		n := len(*got)
+		n, objs := len(*got), 0
 		var s int64
+		for _, b := range *got {
+			objs += len(b.objs)
+		}
 		if n > 0 {
 			s = (*got)[n-1].seq
 		}
 		mu.Unlock()
-		if !any || (n > 0 && s >= lastSeq) {
-			return true
+		if objs >= wantObjs {
+			if !lastEmpty || (n > 0 && s >= lastSeq) {
+				return true
+			}
+			if countOK.IsZero() {
+				countOK = time.Now()
+			} else if time.Since(countOK) > 250*time.Millisecond {
+				return true // trailing object-less writes: give their batch a moment, then judge what arrived
+			}
 		}
 		time.Sleep(200 * time.Microsecond)
 	}
+	c24DrainBroken.Store(true)
 	return false
 }
 
 func TestVerifC24(t *testing.T) {
 	rep := vfNewReport("C24", "A: generated single-writer scenarios (capacity 0-6, batch size -1..5, no timer, 0-40 Write/Flush ops, 0-3 objects per write, optional flush channel), diffed exactly, non-trivial when at least two batches were emitted and one was cut by a Flush; B: concurrent runs (2-5 writers x 5-40 writes, random flushes, 1-3 ms timer or none, fast or slow consumer) checked by the property and replayed on the model by a schedule constructed from the observation, non-trivial when batches of different sizes were emitted; distinct by emitted batch structure")
 	defer rep.Write()
+	// checkpoint: findings so far plus a crash marker are on disk while goroutines that could
+	// panic the process are running; the final Write (deferred) replaces it
+	checkpoint := func() {
+		n := len(rep.OracleFailures)
+		rep.OracleFailures = append(rep.OracleFailures, vfOracleFailure{"process-crashed-during-run", "the test process ended before the run finished (panic in a non-test goroutine)", nil})
+		rep.Write()
+		rep.OracleFailures = rep.OracleFailures[:n]
+	}
+	checkpoint()
 	r := vfNewRng(24)
 	var allOps, allImpl [][]string
 
 	// ---- A ---------------------------------------------------------------------
-	nA := vfScale(400, 8000)
+	nA := vfScale(400, 40000)
 	for i := 0; i < nA; i++ {
 		maxSize := r.Intn(7)
 		batchSize := r.Intn(7) - 1
@@ -284,10 +316,15 @@ func TestVerifC24(t *testing.T) {
 		ops = append(ops, "flush", "settle")
 		out = append(out, "ok", "ok")
 		var lastSeq int64
+		wantObjs, lastEmpty := 0, false
 		if len(writes) > 0 {
 			lastSeq = writes[len(writes)-1].seq
+			lastEmpty = len(writes[len(writes)-1].objs) == 0
 		}
-		drained := c24WaitDrained(got, mu, lastSeq, len(writes) > 0)
+		for _, w := range writes {
+			wantObjs += len(w.objs)
+		}
+		drained := c24WaitDrained(got, mu, lastSeq, wantObjs, lastEmpty)
 		if len(writes) == 0 {
 			time.Sleep(2 * time.Millisecond)
 		}
@@ -331,6 +368,10 @@ func TestVerifC24(t *testing.T) {
 		out = append(out, c24Ints(closed))
 		allOps = append(allOps, ops)
 		allImpl = append(allImpl, out)
+		if len(allOps) >= 3000 { // compare in chunks (memory, thorough tier)
+			rep.vfCompareSegments("queue", allOps, allImpl)
+			allOps, allImpl = nil, nil
+		}
 		rep.Case("A:"+em, len(*got) >= 2 && flushOps > 0)
 		rep.Count(fmt.Sprintf("A:batchSize=%d", batchSize))
 		rep.Count(fmt.Sprintf("A:cap=%d", maxSize))
@@ -341,8 +382,11 @@ func TestVerifC24(t *testing.T) {
 	}
 
 	// ---- B ---------------------------------------------------------------------
-	nB := vfScale(60, 1500)
+	nB := vfScale(60, 5000)
 	for i := 0; i < nB; i++ {
+		if i%10 == 0 {
+			checkpoint()
+		}
 		maxSize := 1 + r.Intn(8)
 		batchSize := 1 + r.Intn(6)
 		if r.Chance(10) {
@@ -436,12 +480,15 @@ func TestVerifC24(t *testing.T) {
 		wg.Wait()
 		q.Flush()
 		var lastSeq int64
+		wantObjs, lastEmpty := 0, false
 		for _, w := range writes {
 			if w.seq > lastSeq {
 				lastSeq = w.seq
+				lastEmpty = len(w.objs) == 0
 			}
+			wantObjs += len(w.objs)
 		}
-		drained := c24WaitDrained(got, mu, lastSeq, true)
+		drained := c24WaitDrained(got, mu, lastSeq, wantObjs, lastEmpty)
 		close(stop)
 		<-cdone
 		waiters.Wait()
@@ -489,6 +536,10 @@ func TestVerifC24(t *testing.T) {
 			out = append(out, c24Emitted(base, writes, *got, groups))
 			allOps = append(allOps, ops)
 			allImpl = append(allImpl, out)
+			if len(allOps) >= 1000 {
+				rep.vfCompareSegments("queue", allOps, allImpl)
+				allOps, allImpl = nil, nil
+			}
 		}
 		sizes := map[int]bool{}
 		var shape []string
